@@ -208,6 +208,22 @@ fn run_transcript(exe: &str, depth: u32) -> Result<Transcript, String> {
     Ok(t)
 }
 
+/// Direction of every listed identifier (every likelySubtags key/value and CLDR layout locale) as
+/// the FACADE crates answer it when built with exactly the features `fs` -- the configuration a
+/// user of `unic-locale` / `unic-langid` gets, with Cargo's feature forwarding between the four
+/// crates in the loop (C14 reads it for the configurations that request likely-subtags support
+/// through one facade only).
+pub fn facade_directions(ctx: &Ctx, fs: &[&str]) -> Result<BTreeMap<String, String>, String> {
+    let dir = write_package(ctx)?;
+    write_dir_ids(&ctx.repo)?;
+    let exe = build(&dir, fs)?;
+    let t = run_transcript(&exe, 1)?;
+    if !t.done {
+        return Err(format!("configuration {}: transcript incomplete", config_name(fs)));
+    }
+    Ok(t.dirs)
+}
+
 fn chunk_lines(exe: &str, depth: u32, section: &str, chunk: u64) -> Vec<String> {
     std::process::Command::new(exe)
         .args(["--chunk", section, &chunk.to_string()])
